@@ -11,6 +11,7 @@ package queues
 //@ type Queue: ghost $lg (Array Int TP_T)
 //@ type Queue: ghost $base (Array Int Int)
 //@ type Queue: ghost $inQ (Array Int Bool)
+//@ type Queue: guarded_by mx: readChunk, writeChunk
 //@ assumption: fewer than 2^64-1 items are ever written to one Queue between two purges (writeCount does not wrap)
 
 //@ func NewQueue
@@ -51,6 +52,7 @@ package queues
 //@   ensures [empty] old(q.readCount) == q.writeCount ==> !result1 && result0 == $box(T, zero(T)) && q.readCount == old(q.readCount)
 //@   ensures [frame] q.writeCount == old(q.writeCount) && q.$lg == old(q.$lg) && q.closed == old(q.closed)
 //@   ghost after store readChunk: q.$inQ[old(q.readChunk)] := false
+//@   assert [instant@C17] after call sync/atomic.Uint64.Add: q.readCount <= q.writeCount
 
 //@ func Queue.Purge
 //@   props C04 C10 C17
@@ -60,6 +62,10 @@ package queues
 //@   ensures [ri]    @RI_Queue(q)
 //@   ensures [empty] q.readCount == 0 && q.writeCount == 0
 //@   ensures [frame] q.closed == old(q.closed) && q.maxCapacity == old(q.maxCapacity)
+// C17, every instant: the lock-free reader Len() must never observe readCount > writeCount (it would report a wrapped, negative length)
+//@   requires [counters] q.readCount <= q.writeCount
+//@   assert [instant-r@C17] after store readCount: q.readCount <= q.writeCount
+//@   assert [instant-w@C17] after store writeCount: q.readCount <= q.writeCount
 //@   ghost at return: q.$inQ := $store($emptyset(), q.readChunk, true)
 //@   ghost at return: q.$base[q.readChunk] := 0
 
@@ -74,6 +80,8 @@ package queues
 // Ghost membership view of a heapQueue: $mem = the set of entries in items, $idx = the slot of each entry.
 //@ type heapQueue: ghost $mem (Array Int Bool)
 //@ type heapQueue: ghost $idx (Array Int Int)
+//@ type PriorityQueue: guarded_by mx: insertionCount
+//@ type heapQueue: guarded_by any queues.PriorityQueue.mx: items
 //@ pred HQ(pq *heapQueue) := pq != nil && @HWF($elems(pq.items), len(pq.items), pq.$mem, pq.$idx) && !(pq.$mem[nil])
 
 // heapQueue.Less is a strict weak order (what container/heap needs) and total on entries with distinct Index (ties are decided).
@@ -90,16 +98,19 @@ package queues
 //@   ensures !@hlt(x, z)
 
 //@ func heapQueue.Len
+//@   holds any queues.PriorityQueue.mx r
 //@   props C04 C17
 //@   ensures result == len(pq.items)
 
 //@ func heapQueue.Less
+//@   holds any queues.PriorityQueue.mx r
 //@   props C04
 //@   requires HQ(pq) && 0 <= i && i < len(pq.items) && 0 <= j && j < len(pq.items)
 //@   ensures [order] result == @hlt(pq.items[i], pq.items[j])
 //@   ensures [lex]   result == (pq.items[i].Priority < pq.items[j].Priority || (pq.items[i].Priority == pq.items[j].Priority && pq.items[i].Index < pq.items[j].Index))
 
 //@ func heapQueue.Swap
+//@   holds any queues.PriorityQueue.mx
 //@   props C04
 //@   requires HQ(pq) && 0 <= i && i < len(pq.items) && 0 <= j && j < len(pq.items)
 //@   modifies pq.items[*], pq.$idx
@@ -108,6 +119,7 @@ package queues
 //@   ghost at return: pq.$idx := $store($store(old(pq.$idx), old(pq.items[j]), i), old(pq.items[i]), j)
 
 //@ func heapQueue.Push
+//@   holds any queues.PriorityQueue.mx
 //@   props C04
 //@   requires HQ(pq) && $typeof(x) == $tid(*enqItem) && $ptrof(x) != nil && !(pq.$mem[$ptrof(x)]) && len(pq.items) < MaxInt
 //@   modifies pq.items, pq.items[**], pq.$mem, pq.$idx, $alloc
@@ -119,6 +131,7 @@ package queues
 //@   ghost at return: pq.$idx[$ptrof(x)] := old(len(pq.items))
 
 //@ func heapQueue.Pop
+//@   holds any queues.PriorityQueue.mx
 //@   props C04
 //@   requires HQ(pq) && len(pq.items) >= 1
 //@   modifies pq.items, pq.$mem
